@@ -8,10 +8,11 @@ Record obs := {
   o_outs : list outcome;     (* the outcome calls a testtools.TestResult received from the run *)
   o_ok : bool }.             (* its wasSuccessful() afterwards *)
 
-(* a handler the user inserts reports some outcome other than success for its exception *)
+(* a handler the user inserts (before the run or while it runs) reports some outcome other than
+   success for its exception *)
 Definition wf (i : input) : bool :=
   wf_prog (i_prog i)
-  && forallb (fun co => negb (outcome_eqb (snd co) OSuccess)) (p_handlers (i_prog i)).
+  && forallb (fun co => negb (outcome_eqb (snd co) OSuccess)) (user_handlers (i_prog i)).
 
 (* the exception stands for a failure or an error *)
 Definition is_failure_or_error (p : prog) (e : exc) : bool :=
